@@ -340,6 +340,23 @@ fn replay(path: &std::path::Path) -> ! {
             .unwrap_or_else(|| verif_common::machinery_error(&format!("replay lacks `{k}`")))
             .to_string()
     };
+    if let Some(n) = case.get("nesting") {
+        let shape = n["shape"].as_str().unwrap_or_else(|| verif_common::machinery_error("replay: nesting.shape")).to_string();
+        let depth = n["depth"].as_u64().unwrap_or_else(|| verif_common::machinery_error("replay: nesting.depth")) as usize;
+        let obs = nest_run(&shape, depth);
+        println!("nesting   : shape {shape}, depth {depth}");
+        println!("observed  : {obs:?}");
+        match nest_judge(&shape, depth, &obs) {
+            Some(kind) => {
+                println!("REPLAY: still violates ({kind})");
+                std::process::exit(1)
+            }
+            None => {
+                println!("REPLAY: conforms");
+                std::process::exit(0)
+            }
+        }
+    }
     let ch = Channel::parse(&s("channel")).unwrap_or_else(|| verif_common::machinery_error("replay: unknown channel"));
     let shape = s("shape");
     let wire = unhex(&s("wire_hex"));
@@ -377,7 +394,62 @@ fn replay(path: &std::path::Path) -> ! {
     }
 }
 
+/// NESTING dimension, parent side: one child process per (shape, depth); a child killed by a signal (stack overflow
+/// aborts the process) or ending without a verdict line is a violation ("never a panic").
+fn nest_run(shape: &str, depth: usize) -> Result<String, String> {
+    let exe = std::env::current_exe().unwrap_or_else(|e| verif_common::machinery_error(&format!("current_exe: {e}")));
+    let out = std::process::Command::new(exe)
+        .env("RT_EXTRACT_NEST", format!("{shape}:{depth}"))
+        .output()
+        .unwrap_or_else(|e| verif_common::machinery_error(&format!("cannot spawn nesting child: {e}")));
+    let stdout = String::from_utf8_lossy(&out.stdout).to_string();
+    match stdout.lines().find(|l| l.starts_with("NEST ")) {
+        Some(l) if out.status.success() => Ok(l.to_string()),
+        _ => {
+            let err = String::from_utf8_lossy(&out.stderr);
+            Err(format!("child ended with {} without a verdict: {}", out.status, err.lines().rev().take(3).collect::<Vec<_>>().join(" | ")))
+        }
+    }
+}
+
+/// -> None when the observation conforms, Some(kind) otherwise. Reference: a document nested `depth` levels that the
+/// extractor accepts must come back with exactly that nesting; up to 100 levels (below serde_json's documented default
+/// recursion limit of 128) it must be accepted; beyond, Ok or the documented DeserializationError; nothing else, ever.
+fn nest_judge(shape: &str, depth: usize, obs: &Result<String, String>) -> Option<String> {
+    // containers on the way to the leaf: the recursive struct costs an object and an array per level
+    let containers = if shape == "rec_obj" { 2 * depth + 1 } else { depth };
+    match obs {
+        Err(_) => Some("crash".into()),
+        Ok(l) => {
+            let parts: Vec<&str> = l.splitn(3, ' ').collect();
+            match (parts.get(1).copied(), parts.get(2).copied()) {
+                (Some("ok"), Some(d)) if d.parse::<usize>().ok() == Some(depth) => None,
+                (Some("ok"), _) => Some("wrong-value".into()),
+                (Some("err"), Some("DeserializationError")) if containers > 100 => None,
+                (Some("err"), Some(v)) => Some(format!("err-{v}")),
+                _ => Some("panic".into()),
+            }
+        }
+    }
+}
+
+fn nest_depths(thorough: bool) -> Vec<usize> {
+    let mut d = vec![0, 1, 2, 3, 16, 64, 100, 126, 127, 128, 129, 130, 256, 1000, 5000, 20000, 60000, 250000];
+    if thorough {
+        d.extend([4, 5, 6, 7, 8, 32, 99, 101, 120, 125, 131, 200, 512, 2000, 10000, 40000, 100000, 500000, 1000000]);
+        d.sort();
+    }
+    d
+}
+
 fn main() {
+    if let Ok(spec) = std::env::var("RT_EXTRACT_NEST") {
+        let (shape, depth) = spec.split_once(':').unwrap_or_else(|| verif_common::machinery_error("RT_EXTRACT_NEST=<shape>:<depth>"));
+        let depth: usize = depth.parse().unwrap_or_else(|_| verif_common::machinery_error("RT_EXTRACT_NEST depth"));
+        std::panic::set_hook(Box::new(|_| {}));
+        println!("{}", shapes::nest_child(shape, depth));
+        return;
+    }
     let args = verif_common::Args::parse();
     if args.property != "C15" {
         verif_common::machinery_error(&format!("rt_extract serves C15, not `{}`", args.property));
@@ -439,6 +511,41 @@ fn main() {
     for f in &stats.found {
         rep.violation(&f.key, &f.what, f.case.clone());
     }
+    // NESTING dimension: every (shape, depth), one child process each, 16 at a time
+    let nest_cases: Vec<(&str, usize)> = shapes::NEST_SHAPES.iter().flat_map(|s| nest_depths(thorough).into_iter().map(move |d| (*s, d))).collect();
+    let nest_next = AtomicUsize::new(0);
+    let nest_results: Mutex<Vec<(usize, Result<String, String>)>> = Mutex::new(vec![]);
+    std::thread::scope(|s| {
+        for _ in 0..n_threads {
+            s.spawn(|| loop {
+                let i = nest_next.fetch_add(1, Ordering::SeqCst);
+                if i >= nest_cases.len() {
+                    break;
+                }
+                let r = nest_run(nest_cases[i].0, nest_cases[i].1);
+                nest_results.lock().unwrap().push((i, r));
+            });
+        }
+    });
+    let mut nest_results = nest_results.into_inner().unwrap();
+    nest_results.sort_by_key(|(i, _)| *i);
+    let mut nest_hist: BTreeMap<String, u64> = BTreeMap::new();
+    for (i, obs) in &nest_results {
+        let (shape, depth) = nest_cases[*i];
+        let label = match obs {
+            Ok(l) => l.split(' ').take(2).collect::<Vec<_>>().join(" "),
+            Err(_) => "CRASH".to_string(),
+        };
+        *nest_hist.entry(format!("{shape} -> {label}")).or_default() += 1;
+        if let Some(kind) = nest_judge(shape, depth, obs) {
+            rep.violation(
+                &format!("json-nesting:{kind}:{shape}"),
+                &format!("JsonBody::extract on a `{shape}` document nested {depth} levels: {}", match obs { Ok(l) => l.clone(), Err(e) => e.clone() }),
+                json!({"nesting": {"shape": shape, "depth": depth}}),
+            );
+        }
+    }
+    stats.evaluations += nest_results.len() as u64;
     let mut samples: Vec<Value> = vec![];
     for (class, v) in &stats.samples {
         for s in v {
@@ -497,6 +604,13 @@ fn main() {
             nct = cases::content_types(Channel::Json).len() + cases::content_types(Channel::Form).len(),
         ),
         "strict_json_tail": bounds.strict_json_tail,
+        "nesting": {
+            "rule": "NESTING dimension: JsonBody::extract into a recursive struct (`replies: Vec<Self>`) and into serde_json::Value, documents nested d levels (arrays, objects, struct-in-array), one child process per case on a 2 MiB-stack thread; accepted => exactly d levels come back; at most 100 nested containers must be accepted; beyond: Ok or DeserializationError; a crash of the child (stack overflow), a panic or any other outcome is a violation",
+            "shapes": shapes::NEST_SHAPES,
+            "depths": nest_depths(thorough),
+            "cases": nest_results.len(),
+            "outcome_histogram": nest_hist,
+        },
         "bounds": {
             "single_field_string_len": bounds.single_len,
             "json_string_len": bounds.json_len,
